@@ -6,7 +6,7 @@ Writes seeded/matrix.json and updates each meta.json's "checks_run".   Usage: to
 """
 import json, os, subprocess, sys, glob, shutil, re
 
-WT, EV = "/tmp/lsf-matrix-wt", "/tmp/lsf-matrix-evidence"
+WT, EV = os.environ.get("MATRIX_WT", "/tmp/lsf-matrix-wt"), os.environ.get("MATRIX_EV", "/tmp/lsf-matrix-evidence")
 
 
 def sh(cmd, cwd=None, env=None, timeout=3600):
@@ -22,11 +22,13 @@ def main():
             checks = a.split("=", 1)[1].split(",")
     manifest = json.load(open("/verif/MANIFEST.json"))
     all_checks = [c["property_id"] for c in manifest["checks"]]
+    own = "--own" in sys.argv
+    only_changes = [a.split("=", 1)[1].split(",") for a in sys.argv[1:] if a.startswith("--changes=")]
     checks = checks or all_checks
     seeds = []
     for d in sorted(glob.glob("/verif/seeded/C*/change*")):
         pid = d.split("/")[-2]
-        if not args or pid in args:
+        if (not args or pid in args) and (not only_changes or d.split("/")[-1] in only_changes[0]):
             seeds.append(d)
     sh("git -C /repo worktree remove --force %s" % WT)
     rc, out = sh("git -C /repo worktree add --detach %s HEAD" % WT)
@@ -42,13 +44,13 @@ def main():
             if rc != 0:
                 print(name, "PATCH DOES NOT APPLY", out[-200:]); continue
             row = matrix.setdefault(name, {})
-            for c in checks:
+            for c in ([d.split("/")[-2]] if own else checks):
                 shutil.rmtree(EV, ignore_errors=True); os.makedirs(EV)
                 env = dict(os.environ, LSF_REPO=WT, LSF_EVIDENCE_DIR=EV)
                 rc, out = sh("./check %s --tier quick" % c, cwd="/verif", env=env)
                 kinds = sorted(set(re.findall(r"VIOLATION property=\S+ replay=\S+ kind=(\S+)", out)))
                 row[c] = {"exit": rc, "verdict": "VIOLATION" if rc == 1 else "held" if rc == 0 else "inconclusive", "kinds": kinds[:6], "repo_head": head}
-            caught = [c for c in checks if row[c]["verdict"] == "VIOLATION"]
+            caught = [c for c in row if row[c]["verdict"] == "VIOLATION"]
             print(name, "caught by", caught, flush=True)
             json.dump(matrix, open(matrix_path, "w"), indent=1, sort_keys=True)
             mp = os.path.join(d, "meta.json")
